@@ -1,3 +1,4 @@
+import GenlmModel.Proofs.GenLink.CfgSpawn
 import Batteries.Tactic.Alias
 import GenlmModel.Proofs.Prio
 import GenlmModel.Proofs.Cky
@@ -110,4 +111,11 @@ alias rescaled_call_is_derivation_sum := Genlm.earleyRescaled_correct
 alias rescaled_any_coefficients_correct := Genlm.earleyRescaled_const_correct
 /-- the code's own coefficients are never zero (it never divides by zero) -/
 alias rescaled_coefficients_nonzero := Genlm.rescaleChoice_ne_zero
+
+/-! ## re-checked tie to the source: the definitions REGENERATED from the Python functions on every run
+(`Generated/Builders.lean` / `Generated/Folds.lean`, by `harness/translate.py`) are the hand-written models the theorems here are about -/
+alias gen_CFG_spawn_eq_model := Genlm.gen_CFG_spawn_eq_model
+alias gen_CFG_spawn_start := Genlm.gen_CFG_spawn_start
+alias gen_CFG_separate_start_eq_model := Genlm.gen_CFG_separate_start_eq_model
+alias gen_CFG_rename_eq_model := Genlm.gen_CFG_rename_eq_model
 end Genlm.Props.C02
